@@ -609,7 +609,7 @@ func main() {
 		runOne(defectFSilent())
 	}
 
-	n := e.N(45, 1500)
+	n := e.N(45, 500)
 	opts := rmkit.GenOpts{SchemaChange: 5}
 	if *profile == "c43" {
 		opts.SchemaChange = 2
